@@ -85,6 +85,24 @@ CLAIMED = {
         "exhaustive over 2 steps x 10 outcome kinds, all failing-checkout combinations and the whole precondition table."),
   technique="Lean 4 proof over hand model (shape generated from source AST) + exhaustive fault-injection correspondence on real git repositories",
   design="DESIGN.md section 7 C20"),
+ "C09": dict(
+  text=("Lean theorems over the hand-written model of bandit's own formatter logic (lean/Bandit/Format.lean; spec in lean/Bandit/Spec/Format.lean; lean/Props/C09.lean): "
+        "html_roundtrip (htmlUnescape (htmlEscape s) = s for ALL strings, htmlEscape = Python's five sequential replaces) and html_no_markup (no < > \" ' survives, every & starts one of the five entities); "
+        "get_code_is_numbered_window + sarif_parse_render (SARIF parse_code undoes the '%i %s' rendering for any lines) + sarif_index_in_range_partial (snippet index in range, snippet = source line at startLine, "
+        "under the guard lmin <= range start) + NEG_sarif_negative_index (kernel-checked IndexError / wrong-line witness); one_record_per_finding (all six formats, grouped order is a permutation), "
+        "six_fields_present (json,yaml,csv,xml,html: id,file,line,severity,confidence,message carried unaltered), six_fields_present_sarif_partial + NEG_sarif_line_is_range_start, six_fields_present_custom, formats_agree; "
+        "grouping_stable_sorted + grouping_contiguous (JSON/YAML grouping = stable sort by file name / test name, code-point order); skipped_listed (json,yaml,sarif,html); "
+        "source_text_escaped_partial (no source-derived leaf is written raw; guard: not HTML, or HTML after the proposed fix) + html_code_escaped + NEG_html_text_raw; "
+        "custom_template_total (for every template of literal text, doubled braces and plain {tag} fields the report is exactly the template's meaning, one line per finding: parse -> re-compose -> str.format round trip). "
+        "The stdlib serialisers are NOT modelled (leaves tagged viaSerializer are assumed to decode to the value handed over) - that assumption and the model itself are tied to /repo on every run by correspondence: "
+        "generated source trees (B105/B101 messages quoting literals from a metacharacter alphabet incl. markup, quotes, separators, CR/LF/TAB, ]]>, {}, %, NBSP, non-BMP, combining marks, bidi; hostile file names; "
+        "multi-line ranges reported on later lines; file-level B613; skipped files; bandit's examples/ corpus) are scanned by real bandit, every format is produced through BanditManager.output_results x context lines "
+        "{0,1,3,10} x thresholds x -a file|vuln x user templates, parsed back with independent parsers (json, yaml.safe_load, csv strict, xml.etree, html.parser, SARIF shape check) and compared with the manager's reported set "
+        "(hence with each other), with the ideally escaped HTML document (parse-equality oracle), and with the compiled Lean model (abstract Doc per format, concrete HTML blocks built from the templates regenerated from html.py, "
+        "SARIF regions, get_code excerpts, custom expansion, html.escape on random strings). Partial: runtime encoders are trusted+tested, not proved; four known findings (HTML unescaped text/path/skipped - fix proposed; "
+        "SARIF line = range start; SARIF negative snippet index; XML control characters) are reported as KNOWN-FINDING in narrow regions."),
+  technique="Lean 4 proof over hand model of the formatters' own logic + parse-back correspondence through output_results (translator for the HTML templates)",
+  design="DESIGN.md section 7 C09"),
 }
 
 REASON_PENDING = "check not built yet (work in progress; DESIGN.md section 11 gives the build order)"
